@@ -25,6 +25,9 @@ semantics and is not decided.
 
 Round 4: compile_expr is decided per class of the root expression; the stack machine with either
 end of the list as the top; the normalisers of C08 (the consumer gets the compiled callable).
+
+Round 6: the operator installer is evaluated per call (installer_kinds) instead of reading flag
+names; compile_expr written as a generator (yield / yield from) is the same postfix emission.
 """
 import ast
 import copy
